@@ -54,18 +54,21 @@ impl FromSpecImpl<Option<Vec<u8>>> for Value {
 impl From<Vec<u8>> for Value {
 //@extract id=Value::from(Vec) file=crux_kv/src/value.rs within="impl From<Vec<u8>> for Value" item="fn from" props=C17
 //@expect fn from(bytes: Vec<u8>) -> Self
+//@expect fn from(bytes: Vec<u8>) -> Value
 //@end
 }
 
 impl From<Value> for Option<Vec<u8>> {
 //@extract id=Option::from(Value) file=crux_kv/src/value.rs within="impl From<Value> for Option<Vec<u8>>" item="fn from" props=C17
 //@expect fn from(value: Value) -> Option<Vec<u8>>
+//@expect fn from(value: Value) -> Self
 //@end
 }
 
 impl From<Option<Vec<u8>>> for Value {
 //@extract id=Value::from(Option) file=crux_kv/src/value.rs within="impl From<Option<Vec<u8>>> for Value" item="fn from" props=C17
 //@expect fn from(val: Option<Vec<u8>>) -> Self
+//@expect fn from(val: Option<Vec<u8>>) -> Value
 //@end
 }
 
